@@ -9,7 +9,7 @@ def run(tier):
         "T5 pass-through provenance of resume argument, yielded value, return value and suspend_with argument/result; T2 containment: user code is "
         "invoked only inside the closure handed to catch_unwind, payloads are downcast to &str and String and reported unmodified; every listener "
         "callback is individually wrapped; complete/error reported once.",
-        ["core/default"],
+        ["core/default", "core/preemptive"],
         not_decided=["corosensei's own argument passing (external crate)", "ordering over long exchanges (implied by per-resume pass-through)"],
         assumptions=["catch_unwind stops unwinding at its frame", "corosensei::Coroutine::resume hands its argument to the pending Yielder::suspend and vice versa"])
     f = fx["core/default"]
@@ -22,4 +22,8 @@ def run(tier):
     coro.push_yield_rule(run, f, "C08-YIELD-REQUESTS")
     coro.drain_rule(run, f, "C08-YIELD-DRAIN")
     wave2.request_pairing_rule(run, f, "C08-REQUEST-PAIRING")
+    # with `preemptive`, a coroutine whose Param is not () must not be monitored: a preemption reports a Suspend its body never
+    # made and the next resume argument goes to the signal handler's suspend (rule shared with C22)
+    from rules import preempt
+    preempt.registration_rule(run, fx["core/preemptive"], "C08-MONITOR-ONLY-UNIT")
     return run.finish()
